@@ -48,10 +48,11 @@ bool Executor::hasToLog(const ErrorMessage &msg)
     struct VerifQ {
         const ErrorMessage& m;
         const char* res;
+        std::size_t fk;
         ~VerifQ() {
-            VERIF_EVT("ExecQuery", verif::msgKey(m) + verif::kv("res", res));
+            VERIF_EVT("ExecQuery", verif::msgKey(m) + verif::kv("res", res) + verif::kv("fk", fk));
         }
-    } verifQ{msg, "suppressed"};
+    } verifQ{msg, "suppressed", 0};
 #endif
     if (!mSuppressions.nomsg.isSuppressed(msg, {}))
     {
@@ -59,6 +60,7 @@ bool Executor::hasToLog(const ErrorMessage &msg)
         std::string errmsg = msg.toString(mSettings.verbose, mSettings.templateFormat, mSettings.templateLocation);
 #ifdef DANMAR_CPPCHECK_VERIF
         verifQ.res = errmsg.empty() ? "empty" : (mSettings.emitDuplicates ? "pass" : "dup");
+        verifQ.fk = std::hash<std::string>{}(errmsg);
 #endif
         if (errmsg.empty())
             return false;
@@ -71,11 +73,11 @@ bool Executor::hasToLog(const ErrorMessage &msg)
 #ifdef DANMAR_CPPCHECK_VERIF
             verifQ.res = "pass";
             // emitted inside mErrorListSync: the order of ExecQuery events is the order of the duplicate filter
-            VERIF_EVT("ExecPass", verif::msgKey(msg) + verif::kb("held", verif::held(mErrorListSync)));
+            VERIF_EVT("ExecPass", verif::msgKey(msg) + verif::kv("fk", verifQ.fk) + verif::kb("held", verif::held(mErrorListSync)));
 #endif
             return true;
         }
-        VERIF_EVT("ExecDup", verif::msgKey(msg) + verif::kb("held", verif::held(mErrorListSync)));
+        VERIF_EVT("ExecDup", verif::msgKey(msg) + verif::kv("fk", verifQ.fk) + verif::kb("held", verif::held(mErrorListSync)));
     }
     return false;
 }
